@@ -346,9 +346,11 @@ func TestVerif_C19_share(t *testing.T) {
 	for i := 0; i < n; i++ {
 		g := &c19ArgGen{r: r, w: w}
 		var names []string
+		// random configurations meet the lives that need no particular protocol set-up (the eleven fixed
+		// configurations go through all eight)
 		lf := lives[0]
 		if i%4 == 3 {
-			lf = verifh.Pick(r, lives)
+			lf = verifh.Pick(r, []c19Life{lives[1], lives[5], lives[6]})
 		}
 		k := 1 + r.Intn(10)
 		run(func() string { return "random: " + strings.Join(names, ", ") + " / " + lf.name }, func(c *Client) error {
